@@ -112,6 +112,14 @@ def run(ctx):
             s1, s2 = np.array(gen.series(rng, r, kind)), np.array(gen.series(rng, c, kind))
             if rng.random() < 0.2:
                 s2 = -np.abs(s2) - 1.0       # all-negative envelope
+        if rng.random() < 0.12 and r != c:
+            # aliased arguments: one series is a prefix view of the other one's buffer (same start address)
+            long_ = s1 if r > c else s2
+            if r > c:
+                s2 = long_[:c]
+            else:
+                s1 = long_[:r]
+            ctx.count("aliased_prefix_view_cases")
         ref = check_ed(s1, s2, inner, nd)
         # ED >= penalty-free DTW (any window / psi), both engines
         w = rng.choice([None, 1, 2, rng.randint(1, max(r, c) + 1)])
@@ -130,7 +138,8 @@ def run(ctx):
         for eng, f in (("py", dtw.distance), ("c", dtw.distance_fast), ("py->c", lambda a, b, **k: dtw.distance(a, b, use_c=True, **k))):
             try:
                 d = float(f(s1, s2, use_ndim=bool(nd), **kw))
-                ub = float(f(s1, s2, use_ndim=bool(nd), only_ub=True, **ubkw))
+                # flags are used for their truth value: a NumPy boolean or 1 is as good as True
+                ub = float(f(s1, s2, use_ndim=bool(nd), only_ub=rng.choice([True, True, 1, np.bool_(True)]), **ubkw))
             except Exception as e:
                 ctx.violation("exception", fn="distance[%s]" % eng, error=repr(e)[:300], s1=s1.tolist(), s2=s2.tolist(),
                               settings=dict(dtwmon.settings_key(kw)), ndim=nd)
